@@ -239,6 +239,42 @@ fn transport_tick() {
     }
 }
 
+static GATE_R: AtomicI64 = AtomicI64::new(-1);
+static GATE_W: AtomicI64 = AtomicI64::new(-1);
+
+/// Gate mode (forked sender processes orchestrated at packet granularity): before every packet
+/// transmission while armed, announce 'T' on `w` and wait for one byte on `r`.
+pub fn set_gate(r: i32, w: i32) {
+    GATE_R.store(r as i64, Ordering::SeqCst);
+    GATE_W.store(w as i64, Ordering::SeqCst);
+}
+
+fn gate_point() {
+    if !ARMED.load(Ordering::Relaxed) {
+        return;
+    }
+    let w = GATE_W.load(Ordering::Relaxed);
+    if w < 0 {
+        return;
+    }
+    let r = GATE_R.load(Ordering::Relaxed);
+    unsafe {
+        raw::write_all(w as i32, b"T");
+        let mut b = [0u8; 1];
+        loop {
+            let n = raw::read(r as i32, &mut b);
+            if n == -(libc::EINTR as isize) {
+                continue;
+            }
+            if n != 1 {
+                // the orchestrator went away
+                raw::exit_group(9);
+            }
+            break;
+        }
+    }
+}
+
 /// returns true if this send attempt must fail with ENOBUFS
 fn send_fault() -> bool {
     if ARMED.load(Ordering::Relaxed) {
@@ -606,6 +642,7 @@ pub unsafe extern "C" fn sendmsg(fd: c_int, msg: *const msghdr, flags: c_int) ->
         return cvt(sc3(libc::SYS_sendmsg, fd as usize, msg as usize, flags as usize));
     }
     transport_tick();
+    gate_point();
     check_msghdr(msg, "sendmsg");
     let total = iov_total(msg);
     let att_fds = cmsg_fds(msg);
@@ -651,6 +688,7 @@ pub unsafe extern "C" fn send(fd: c_int, buf: *const c_void, len: size_t, flags:
         return cvt(sc6(libc::SYS_sendto, fd as usize, buf as usize, len, flags as usize, 0, 0));
     }
     transport_tick();
+    gate_point();
     check_range(buf, len, "send");
     let tag = if len >= 8 { std::ptr::read_unaligned(buf as *const u64) } else { 0 };
     if send_fault() {
